@@ -430,7 +430,7 @@ func (f Slice) startEndStep(size int) (start, end, step int) {
 	return
 }
 
-func (f Slice) locate(pp Expr, data any, rest Expr, max int) (locs []Expr) {
+func (f Slice) locate(pp Expr, data, root any, rest Expr, max int) (locs []Expr) {
 	switch td := data.(type) {
 	case []any:
 		start, end, step := f.startEndStep(len(td))
@@ -449,7 +449,7 @@ func (f Slice) locate(pp Expr, data any, rest Expr, max int) (locs []Expr) {
 				cp := append(pp, nil) // place holder
 				for i := start; i < end; i += step {
 					cp[len(pp)] = Nth(i)
-					locs = locateContinueFrag(locs, cp, td[i], rest, max)
+					locs = locateContinueFrag(locs, cp, td[i], root, rest, max)
 					if 0 < max && max <= len(locs) {
 						break
 					}
@@ -467,7 +467,7 @@ func (f Slice) locate(pp Expr, data any, rest Expr, max int) (locs []Expr) {
 				cp := append(pp, nil) // place holder
 				for i := start; end < i; i += step {
 					cp[len(pp)] = Nth(i)
-					locs = locateContinueFrag(locs, cp, td[i], rest, max)
+					locs = locateContinueFrag(locs, cp, td[i], root, rest, max)
 					if 0 < max && max <= len(locs) {
 						break
 					}
@@ -491,7 +491,7 @@ func (f Slice) locate(pp Expr, data any, rest Expr, max int) (locs []Expr) {
 				cp := append(pp, nil) // place holder
 				for i := start; i < end; i += step {
 					cp[len(pp)] = Nth(i)
-					locs = locateContinueFrag(locs, cp, td[i], rest, max)
+					locs = locateContinueFrag(locs, cp, td[i], root, rest, max)
 					if 0 < max && max <= len(locs) {
 						break
 					}
@@ -509,7 +509,7 @@ func (f Slice) locate(pp Expr, data any, rest Expr, max int) (locs []Expr) {
 				cp := append(pp, nil) // place holder
 				for i := start; end < i; i += step {
 					cp[len(pp)] = Nth(i)
-					locs = locateContinueFrag(locs, cp, td[i], rest, max)
+					locs = locateContinueFrag(locs, cp, td[i], root, rest, max)
 					if 0 < max && max <= len(locs) {
 						break
 					}
@@ -533,7 +533,7 @@ func (f Slice) locate(pp Expr, data any, rest Expr, max int) (locs []Expr) {
 				cp := append(pp, nil) // place holder
 				for i := start; i < end; i += step {
 					cp[len(pp)] = Nth(i)
-					locs = locateContinueFrag(locs, cp, td.ValueAtIndex(i), rest, max)
+					locs = locateContinueFrag(locs, cp, td.ValueAtIndex(i), root, rest, max)
 					if 0 < max && max <= len(locs) {
 						break
 					}
@@ -551,7 +551,7 @@ func (f Slice) locate(pp Expr, data any, rest Expr, max int) (locs []Expr) {
 				cp := append(pp, nil) // place holder
 				for i := start; end < i; i += step {
 					cp[len(pp)] = Nth(i)
-					locs = locateContinueFrag(locs, cp, td.ValueAtIndex(i), rest, max)
+					locs = locateContinueFrag(locs, cp, td.ValueAtIndex(i), root, rest, max)
 					if 0 < max && max <= len(locs) {
 						break
 					}
@@ -586,7 +586,7 @@ func (f Slice) locate(pp Expr, data any, rest Expr, max int) (locs []Expr) {
 						cp[len(pp)] = Nth(i)
 						rv := rd.Index(i)
 						if rv.CanInterface() {
-							locs = locateContinueFrag(locs, cp, rv.Interface(), rest, max)
+							locs = locateContinueFrag(locs, cp, rv.Interface(), root, rest, max)
 							if 0 < max && max <= len(locs) {
 								break
 							}
@@ -610,7 +610,7 @@ func (f Slice) locate(pp Expr, data any, rest Expr, max int) (locs []Expr) {
 						cp[len(pp)] = Nth(i)
 						rv := rd.Index(i)
 						if rv.CanInterface() {
-							locs = locateContinueFrag(locs, cp, rv.Interface(), rest, max)
+							locs = locateContinueFrag(locs, cp, rv.Interface(), root, rest, max)
 							if 0 < max && max <= len(locs) {
 								break
 							}
